@@ -539,6 +539,7 @@ func ruleRepSlice(c *Ctx, r *R) {
 	sliceConvRule(c, r)
 	newSliceConverts(c, r)
 	literalCapRule(c, r)
+	nilToAnyRule(c, r)
 	one := func(name string) *State {
 		ps := c.pathsOf(name)
 		if len(ps) == 1 {
@@ -2086,5 +2087,23 @@ func structWritersRule(c *Ctx, r *R) {
 	}
 	if n == 0 {
 		r.undecided("struct table writers", "-", "no write to a Fields/Methods table found")
+	}
+}
+
+// nilToAnyRule: nil converted to the bare slice type (the encoding of []any) is the nil []any:
+// a typed nil whose type is the target, not some other slice type.
+func nilToAnyRule(c *Ctx, r *R) {
+	fd := c.Func("Value.convert")
+	if fd == nil {
+		return
+	}
+	for _, p := range c.pathsOf("Value.convert") {
+		cs := condStrings(p)
+		if !strings.Contains(cs, "(t == TypeSlice)") || !strings.Contains(cs, "(v.t == TypeNil)") || len(p.Ret) != 1 {
+			continue
+		}
+		tf := litField(p.Ret[0], "t")
+		r.check(tf != nil && (tf.String() == "TypeSlice" || tf.String() == "t"), "nil conversion to []any", c.Pos(fd), "nil converts to the typed nil of the target type",
+			"Value.convert turns nil into a nil slice of another element type ("+p.Ret[0].String()+") when the target is the bare slice type []any: `xs := append([]any(nil), src...); xs = append(xs, 1000)` stores 232, a byte")
 	}
 }
